@@ -39,16 +39,19 @@ def verify(name, wt, prop):
     builds = "error" not in out
     rc, out = sh("cargo test --offline --lib 2>&1 | grep -E '^test result|error' ; cargo test --offline --doc 2>&1 | grep -E '^test result|error'", cwd=wt)
     ran.append(("cargo test --offline --lib/--doc (with change)", out.strip()))
-    suite_ok = out.count("test result: ok") >= 2 and "FAILED" not in out and "102 passed" in out
+    suite_ok = out.count("test result: ok") >= 2 and "FAILED" not in out and any(int(n) >= 102 for n in __import__("re").findall(r"test result: ok\. (\d+) passed", out))
     rc, out = sh(demo_cmd(), cwd=wt); ran.append(("demonstration (with change)", out.strip()[-600:]))
     demo_fails = ("FAILED" in out or "DEMO_EXIT=1" in out or "panicked" in out or "test failed, to rerun" in out) and "DEMO_EXIT=0" not in out
     # without the change
-    sh("git stash push -q -- src", cwd=wt)
+    pd = os.path.join(d, "patch.diff")
+    rc0, o0 = sh(f"git apply -R {pd}", cwd=wt)
+    if rc0 != 0:
+        sys.exit("cannot undo the change in the worktree: " + o0)
     try:
         rc, out = sh(demo_cmd(), cwd=wt); ran.append(("demonstration (unchanged code)", out.strip()[-300:]))
         demo_passes = ("test result: ok" in out and "FAILED" not in out) or "DEMO_EXIT=0" in out
     finally:
-        sh("git stash pop -q", cwd=wt)
+        sh(f"git apply {pd}; git add -N src", cwd=wt)
     meta = {"name": name, "breaks_property": prop, "verified": {"builds": builds, "existing_suite_passes": suite_ok, "demo_fails_with_change": demo_fails, "demo_passes_without_change": demo_passes}, "ran": ran}
     mp = os.path.join(d, "meta.json")
     if os.path.exists(mp):
@@ -82,6 +85,12 @@ def run(name, checks):
             print(f"  {c}: exit {rc} ({res[c]['s']} s) {detail[:150]}", flush=True)
     finally:
         sh("git checkout -q -- . ", cwd="/repo")
+        # files the patch created are untracked in /repo: remove exactly those
+        lines = open(f"{d}/patch.diff").read().splitlines()
+        for k, l in enumerate(lines):
+            if l.startswith("--- /dev/null") and k + 1 < len(lines) and lines[k + 1].startswith("+++ b/"):
+                f = os.path.join("/repo", lines[k + 1][6:])
+                if os.path.isfile(f): os.remove(f)
         sh(f"rm -rf {VERIF}/replays/*", cwd=VERIF)
     mp = os.path.join(d, "meta.json")
     meta = json.load(open(mp))
